@@ -11,7 +11,7 @@ Lemma fn2_guard_table : (fn2_domain_max_index <? fn2_domain_min) = true /\ (0 <?
 Proof. split; vm_compute; reflexivity. Qed.
 Lemma crypt_table : (0 <? crypt_bits_div) = true /\ (crypt_bits_div <=? crypt_v1_bits) = true /\ crypt_len_mult = 8 /\ crypt_bits_div = 8.
 Proof. repeat split; vm_compute; reflexivity. Qed.
-Lemma depth_table : (0 <? page_depth) = true /\ (0 <? tree_depth) = true /\ (0 <? cs_depth) = true.
+Lemma depth_table : (0 <? sf_page_depth) = true /\ (0 <? tree_depth) = true /\ (0 <? cs_depth) = true.
 Proof. repeat split; vm_compute; reflexivity. Qed.
 
 (* ------------------------------------------------------------------ checked primitives *)
@@ -278,7 +278,7 @@ Proof.
     destruct (crypt_bits_div =? 0) eqn:E; [apply N.eqb_eq in E; apply N.ltb_lt in T1; lia|]. cbn [bind] in H.
     destruct (crypt_v1_bits / crypt_bits_div =? 0); inversion H; auto. }
   destruct (v =? 2).
-  { destruct (bits mod crypt_bits_mod =? 0); [|discriminate]. cbn [bind] in H.
+  { destruct (bits mod sf_crypt_bits_mod =? 0); [|discriminate]. cbn [bind] in H.
     destruct ((r <? 2) || (6 <? r)); [discriminate|]. destruct (r <=? 4); [|discriminate].
     destruct (crypt_bits_div =? 0) eqn:E; [apply N.eqb_eq in E; apply N.ltb_lt in T1; lia|]. cbn [bind] in H.
     destruct (bits / crypt_bits_div =? 0); inversion H; auto. }
